@@ -86,19 +86,20 @@ Fixpoint ing_run (ops : list iop) (st : astate (Q := rpq)) (handles : list sid) 
   end.
 
 (* ================================================================ real sockets, one connection *)
-(* message spec: id, frame sizes, flags supplied by the application (true = MORE on all but the last),
+(* message spec: id, frame sizes, flags supplied by the application (0 = no MORE anywhere, 1 = MORE on all but the
+   last, 2 = MORE on EVERY frame, the last included: stale flags of frames relayed from a longer message),
    sent part by part (true) or with send_multipart (false) *)
-Definition mspec : Type := N * list N * bool * bool.
+Definition mspec : Type := N * list N * N * bool.
 
 (* tagged payload [sender; id_hi; id_lo; idx_hi; idx_lo; cnt_hi; cnt_lo; 0xC2] ++ padding (contents not compared) *)
 Definition tagged_data (sender id idx count len : N) : list N :=
   if len =? 0 then []
   else [sender; id / 256; id mod 256; idx / 256; idx mod 256; count / 256; count mod 256; 194]
        ++ repeat 0 (N.to_nat (N.max len 8 - 8)).
-Fixpoint build_frames (sender id count : N) (flags : bool) (idx : N) (sizes : list N) : list frame :=
+Fixpoint build_frames (sender id count : N) (flags : N) (idx : N) (sizes : list N) : list frame :=
   match sizes with
   | [] => []
-  | l :: t => (flags && (idx + 1 <? count), tagged_data sender id idx count l)
+  | l :: t => (match flags with 0 => false | 1 => idx + 1 <? count | _ => true end, tagged_data sender id idx count l)
               :: build_frames sender id count flags (idx + 1) t
   end.
 Definition build_message (sender : N) (m : mspec) : list frame :=
